@@ -15,16 +15,18 @@ EXTENDS Integers, Sequences, TLC, Json
 
 CONSTANTS MaxLen, Alphabet
 
-VARIABLES filler,      \* the bytes before the real object
+VARIABLES tail,        \* TRUE: the stream ends behind the filler (no further object): the scan must end by
+                       \* the end-of-file exception, not spin
+          filler,      \* the bytes before the real object
           g,           \* get position
           tmp,         \* the 4-byte window (persists across iterations)
-          pc,          \* "read" | "back" | "found" | "eofthrow"
+          pc,          \* "read" | "back" | "found" | "eofthrow" | "phantom"
           reads, seeks \* operation counters (compared with the implementation)
 
-vars == <<filler, g, tmp, pc, reads, seeks>>
+vars == <<tail, filler, g, tmp, pc, reads, seeks>>
 
 Sig == <<"L", "O", "B", "J">>
-Stream == filler \o Sig \o [i \in 1..12 |-> "x"]
+Stream == IF tail THEN filler ELSE filler \o Sig \o [i \in 1..12 |-> "x"]
 At(x) == Stream[x + 1]
 
 RECURSIVE Strings(_)
@@ -34,7 +36,8 @@ HasSig(s) == \E i \in 1..(Len(s) - 3) : SubSeq(s, i, i + 3) = Sig
 (* a signature must not start inside the filler, not even one completed by the real "LOBJ" *)
 Clean(s) == ~HasSig(s \o <<"L", "O", "B">>)
 
-Init == /\ filler \in {s \in Strings(MaxLen) : Clean(s)}
+Init == /\ tail \in BOOLEAN
+        /\ filler \in {s \in Strings(MaxLen) : Clean(s)}
         /\ g = 0 /\ tmp = <<"x", "x", "x", "x">> /\ pc = "read" /\ reads = 0 /\ seeks = 0
 
 (* is.read(&tmp, 4): everything is available; a read crossing the end is short and sets eof *)
@@ -43,27 +46,31 @@ Read == /\ pc = "read"
                k == IF avail >= 4 THEN 4 ELSE IF avail > 0 THEN avail ELSE 0
                t2 == [i \in 1..4 |-> IF i <= k THEN At(g + i - 1) ELSE tmp[i]]
            IN /\ tmp' = t2 /\ g' = g + k /\ reads' = reads + 1
-              /\ pc' = IF t2 = Sig THEN "found"
+              /\ pc' = IF t2 = Sig /\ k = 4 THEN "found"
+                       ELSE IF t2 = Sig THEN "phantom"     \* short read completed by stale bytes of tmp: the stream
+                                                           \* is at its end (eof set), the caller sees !good()
                        ELSE IF k < 4 THEN "eofthrow"
                        ELSE "back"
-        /\ UNCHANGED <<filler, seeks>>
+        /\ UNCHANGED <<tail, filler, seeks>>
 SeekBack == /\ pc = "back"
             /\ LET k == IF <<tmp[2], tmp[3], tmp[4]>> = <<"L", "O", "B">> THEN 3
                         ELSE IF <<tmp[3], tmp[4]>> = <<"L", "O">> THEN 2
                         ELSE IF tmp[4] = "L" THEN 1 ELSE 0
                IN /\ g' = g - k /\ seeks' = seeks + (IF k > 0 THEN 1 ELSE 0)
             /\ pc' = "read"
-            /\ UNCHANGED <<filler, tmp, reads>>
+            /\ UNCHANGED <<tail, filler, tmp, reads>>
 Next == Read \/ SeekBack
 Spec == Init /\ [][Next]_vars
 
 (* C09: the scan stops exactly behind the first signature at or after the start: never skips it,
    never runs into the end of the stream *)
-FindsFirstSignature == /\ pc = "found" => g = Len(filler) + 4
-                       /\ pc # "eofthrow"
+FindsFirstSignature == /\ pc = "found" => (~tail /\ g = Len(filler) + 4)
+                       /\ pc \in {"eofthrow", "phantom"} => tail
+(* the scan cannot spin: the number of reads is bounded by the stream length *)
+Progress == reads <= 2 * Len(Stream) + 2
 (* progress: the window start never moves backwards over a whole iteration *)
 Terminates == <>(pc = "found")
 (* M3 vectors: one line per filler when the scan has ended *)
-Vector == pc \in {"found", "eofthrow"} =>
-            PrintT(ToJson([filler |-> filler, g |-> g, reads |-> reads, seeks |-> seeks, found |-> pc = "found"]))
+Vector == pc \in {"found", "eofthrow", "phantom"} =>
+            PrintT(ToJson([tail |-> tail, filler |-> filler, g |-> g, reads |-> reads, seeks |-> seeks, found |-> pc = "found"]))
 =============================================================================
